@@ -311,9 +311,64 @@ Definition spec_ok_r (c : rcase) : bool :=
        end
   else rres_eqb (or_res c) (handler_rres (r_crash c) (r_h c)).
 
+(* ------------------------------------------------------------------ several requests through ONE instance *)
+(* The driver's schedule: which request starts, whose handler does one more action (REST) / returns (RPC),
+   whose deadline comes.  By Proofs.t_requests_independent what request r does in the product is its own
+   LTS under its own part of the schedule; here that part is read off the op list as a fire_mode. *)
+Inductive mop := MOStart (r : nat) | MOStep (r : nat) | MOFire (r : nat).
+
+(* deadline of request r: after as many of its actions as `step r` ops precede its `fire r` *)
+Fixpoint fire_of (r : nat) (c : cause) (ops : list mop) (k : nat) : fire_mode :=
+  match ops with
+  | [] => FNone
+  | MOFire r' :: rest => if Nat.eqb r r' then FCut k c else fire_of r c rest k
+  | MOStep r' :: rest => fire_of r c rest (if Nat.eqb r r' then S k else k)
+  | MOStart _ :: rest => fire_of r c rest k
+  end.
+
+Record mreq := mkmq {
+  q_rh0 : hdrs; q_acts : list action; q_cause : cause;
+  qo_events : list revent; qo_resp : response; qo_trace : list outcome; qo_panicked : bool;
+  qo_blocked : bool      (* the request made no progress for seconds although nothing it needs was outstanding *)
+}.
+Record mcase := mkmc { m_recover : bool; m_ops : list mop; m_reqs : list mreq }.
+
+Definition to_tcase (recover : bool) (ops : list mop) (r : nat) (q : mreq) : tcase :=
+  mktc recover BNone 0 (-1) (q_rh0 q) (q_acts q) (fire_of r (q_cause q) ops 0)
+       (qo_events q) (qo_resp q) (qo_trace q) (qo_panicked q).
+
+Fixpoint forall_i {A} (f : nat -> A -> bool) (i : nat) (l : list A) : bool :=
+  match l with [] => true | a :: r => f i a && forall_i f (S i) r end.
+
+Definition model_ok_m (c : mcase) : bool :=
+  forall_i (fun r q => negb (qo_blocked q) && model_ok_t (to_tcase (m_recover c) (m_ops c) r q)) 0 (m_reqs c).
+(* every request gets exactly its own handler's response or its own timeout response, by the same cut rules
+   as alone, and is never held up by the others *)
+Definition spec_ok_m (c : mcase) : bool :=
+  forall_i (fun r q => negb (qo_blocked q) && spec_ok_t (to_tcase (m_recover c) (m_ops c) r q)) 0 (m_reqs c).
+
+(* RPC: `step r` lets handler r return; the deadline counts if it comes first *)
+Fixpoint rfire_of (r : nat) (c : cause) (ops : list mop) : rfire :=
+  match ops with
+  | [] => RNone
+  | MOFire r' :: rest => if Nat.eqb r r' then RBefore c else rfire_of r c rest
+  | MOStep r' :: rest => if Nat.eqb r r' then RNone else rfire_of r c rest
+  | MOStart _ :: rest => rfire_of r c rest
+  end.
+Record rmreq := mkrq { rq_h : hres; rq_cause : cause; rqo_res : rres; rqo_blocked : bool }.
+Record rmcase := mkrmc { rm_crash : bool; rm_ops : list mop; rm_reqs : list rmreq }.
+Definition to_rcase (crash : bool) (ops : list mop) (r : nat) (q : rmreq) : rcase :=
+  mkrc crash true (rq_h q) (rfire_of r (rq_cause q) ops) (rqo_res q) (rqo_blocked q).
+Definition model_ok_rm (c : rmcase) : bool :=
+  forall_i (fun r q => model_ok_r (to_rcase (rm_crash c) (rm_ops c) r q)) 0 (rm_reqs c).
+Definition spec_ok_rm (c : rmcase) : bool :=
+  forall_i (fun r q => spec_ok_r (to_rcase (rm_crash c) (rm_ops c) r q)) 0 (rm_reqs c).
+
 (* ------------------------------------------------------------------ the case type vcheck evaluates *)
-Inductive case := CaseT (c : tcase) | CaseC (c : ccase) | CaseR (c : rcase).
+Inductive case := CaseT (c : tcase) | CaseC (c : ccase) | CaseR (c : rcase) | CaseM (c : mcase) | CaseRM (c : rmcase).
 Definition model_ok (c : case) : bool :=
-  match c with CaseT t => model_ok_t t | CaseC k => model_ok_c k | CaseR r => model_ok_r r end.
+  match c with CaseT t => model_ok_t t | CaseC k => model_ok_c k | CaseR r => model_ok_r r
+               | CaseM m => model_ok_m m | CaseRM m => model_ok_rm m end.
 Definition spec_ok (c : case) : bool :=
-  match c with CaseT t => spec_ok_t t | CaseC k => spec_ok_c k | CaseR r => spec_ok_r r end.
+  match c with CaseT t => spec_ok_t t | CaseC k => spec_ok_c k | CaseR r => spec_ok_r r
+               | CaseM m => spec_ok_m m | CaseRM m => spec_ok_rm m end.
